@@ -18,7 +18,7 @@ KANI_ASSUMPTIONS = [
     "Kani has no unwinding semantics: clauses about panics/unwinding are not covered",
 ]
 
-HOOK_COMMITS = ["0d1b28c"]
+HOOK_COMMITS = ["0d1b28c", "7f73fb6"]
 
 NOT_APPLICABLE = {
     "C04": "quantifies over safe *programs* and the oracle is rustc's accept/reject verdict (borrow/const checking); Verus and Kani both run after type checking with lifetimes erased, so no contract on a function of /repo can express it (DESIGN.md §4)",
